@@ -276,6 +276,10 @@ structure CheckFacts where
   lenAnyConstString : Bool
   /-- type.go nodeType2, basicLit: an integer literal of more than N bits is a "constant overflow" (638fc07) -/
   litBitsMax : Option Nat
+  /-- cfg.go binaryExpr, `case aShl, aShr:` a constant shift of an untyped constant is typed `c0.typ` when that is an
+      integer kind (untyped int, untyped rune), `untypedInt(n)` otherwise, whatever the context pushed down (287aa9d);
+      before, the node kept the type of the left operand (or the pushed-down one) -/
+  shiftUntypedInt : Bool
   deriving DecidableEq, Repr
 
 structure EvalFacts where
